@@ -187,6 +187,9 @@ crate::harnesses! { REG;
     /// quick required unwindset=sw_double_and_add:5,>::pow:6,SqrtPrecomputation:7 | SW cofactor 4 over F_13: EVERY byte string of length 0..=2 in all 4 modes: never panics, consumes exactly the advertised size; Ok(point) <=> brute-force decoding succeeds (on curve; with validation also in the prime-order subgroup); both-flags-set, non-reduced x, x without root, off-curve and out-of-subgroup encodings are rejected
     #[unwind(70)]
     fn c10_sw_bytes_cof4() { sw_any_bytes::<SwCof4>() }
+    /// quick required unwindset=sw_double_and_add:5,>::pow:6,SqrtPrecomputation:7 | SW b = 0 cofactor 4 over F_13: EVERY byte string of length 0..=2 in all 4 modes (x = 0 decodes to the order-two point (0, 0), not the identity)
+    #[unwind(70)]
+    fn c10_sw_bytes_b0() { sw_any_bytes::<SwB0>() }
     /// quick required unwindset=sw_double_and_add:5,>::pow:6,SqrtPrecomputation:7 | SW a=0 cofactor 1 over F_13: EVERY byte string of length 0..=2 in all 4 modes
     #[unwind(70)]
     fn c10_sw_bytes_a0() { sw_any_bytes::<SwA0>() }
